@@ -261,6 +261,37 @@ def rules(ck, P):
                                  "constructor rejects capacity < 1 before building the cache",
                                  "constructor stores a capacity that may be 0 (no diverging guard `%s < 1`)" % nm, ir.loc(n))
     ck.anchor("I4", "constructor sites", n_ctor, 1)
+    # the capacity derived from a byte budget counts whole (K, V) entries: budget / (size_of::<K>() + size_of::<V>())
+    wm = [b for b in P.bodies if b["q"] == Q + "::with_maximum_size"]
+    if ck.anchor("I4", "with_maximum_size", wm, 1):
+        b = wm[0]
+        lets = {}
+        for n in ir.walk_nodes(b["body"]):
+            if n.get("k") == "let" and "init" in n and n["pat"].get("k") == "bind":
+                lets[n["pat"]["hid"]] = n["init"]
+        st = [n for n in ir.walk_nodes(b["body"]) if n.get("k") == "struct" and n.get("q") == Q]
+        okb = False
+        why = "capacity field is not a quotient"
+        if st:
+            capf = [f for f in st[0]["fields"] if f["name"] in cap_names]
+            e = ir.strip(capf[0]["e"]) if capf else None
+            if e is not None and e.get("k") == "path" and e.get("r") == "local":
+                e = ir.strip(lets.get(e["hid"], e))
+            num = den = None
+            if e is not None and e.get("k") == "mcall" and e.get("name") == "div" and e.get("a"):
+                num, den = e["recv"], e["a"][0]
+            elif e is not None and e.get("k") == "bin" and e.get("op") == "/":
+                num, den = e["l"], e["r"]
+            if num is not None:
+                d = ir.strip(den)
+                if d.get("k") == "path" and d.get("r") == "local":
+                    d = ir.strip(lets.get(d["hid"], d))
+                sizes = sorted((y.get("ga") or "").strip("[]").split("/")[0] for y in ir.walk_nodes(d) if y.get("k") == "call" and (y.get("q") or "").endswith("mem::size_of"))
+                plus_only = all(y.get("op") == "+" for y in ir.walk_nodes(d) if y.get("k") == "bin")
+                pm = [x["name"] for p_ in b["params"] for x in ir.pat_binds(p_)]
+                okb = sizes == ["K", "V"] and plus_only and ir.place_str(num) in pm
+                why = "budget %s divided by sizes of %s" % (ir.place_str(num), sizes)
+        ck.check(okb, "I4", b["q"] + "|budget", "capacity = byte budget / (size_of::<K>() + size_of::<V>())", "capacity from the byte budget is not budget / (size of key + size of value): %s" % why, ir.loc(b))
 
     # ---- T1 / R1 stamping
     counter = [f["name"] for f in fields.values() if f["t"] == "u64"]
